@@ -50,7 +50,11 @@ fn verifiers(mode: &str) -> Vec<(&'static str, Vf)> {
     } else {
         vec![("crypto_sign_final_verify", |s, m, p| { let mut st = csg::crypto_sign_init(); csg::crypto_sign_update(&mut st, m); csg::crypto_sign_final_verify(st, s, p).is_ok() }),
              ("IncrementalSigner::verify", |s, m, p| { let mut st = IncrementalSigner::new(); st.update(&m.to_vec()); st.verify(s, p).is_ok() }),
-             ("IncrementalSigner::default + verify", |s, m, p| { let mut st = IncrementalSigner::default(); st.update(&m.to_vec()); st.verify(s, p).is_ok() })]
+             ("IncrementalSigner::default + verify", |s, m, p| { let mut st = IncrementalSigner::default(); st.update(&m.to_vec()); st.verify(s, p).is_ok() }),
+             // Sign.tla UpdateCalls: the same message presented through no update call at all (empty message) or through two
+             ("crypto_sign_final_verify (no update call for an empty message, two otherwise)", |s, m, p| { let mut st = csg::crypto_sign_init(); if !m.is_empty() { let h = m.len() / 2; csg::crypto_sign_update(&mut st, &m[..h]); csg::crypto_sign_update(&mut st, &m[h..]); } csg::crypto_sign_final_verify(st, s, p).is_ok() }),
+             ("IncrementalSigner::verify (no update call for an empty message, two otherwise)", |s, m, p| { let mut st = IncrementalSigner::new(); if !m.is_empty() { let h = m.len() / 2; st.update(&m[..h].to_vec()); st.update(&m[h..].to_vec()); } st.verify(s, p).is_ok() }),
+             ("IncrementalSigner::default + verify (no update call for an empty message, two otherwise)", |s, m, p| { let mut st = IncrementalSigner::default(); if !m.is_empty() { let h = m.len() / 2; st.update(&m[..h].to_vec()); st.update(&m[h..].to_vec()); } st.verify(s, p).is_ok() })]
     }
 }
 
@@ -194,6 +198,11 @@ pub fn cmd_sign(args: &[String]) {
                     got.push(("IncrementalSigner::finalize", { let mut st = IncrementalSigner::new(); st.update(&msg); st.finalize::<Vec<u8>, _>(&sk).map_err(|e| format!("{:?}", e)) }));
                     // the same object obtained through its trait implementations
                     got.push(("IncrementalSigner::default + finalize", { let mut st = IncrementalSigner::default(); st.update(&msg); st.finalize::<Vec<u8>, _>(&sk).map_err(|e| format!("{:?}", e)) }));
+                    // Sign.tla UpdateCalls: no update call at all for the empty message, two calls otherwise
+                    let h = len / 2;
+                    got.push(("crypto_sign_final_create (no update call for an empty message, two otherwise)", { let mut st = csg::crypto_sign_init(); if len > 0 { csg::crypto_sign_update(&mut st, &msg[..h]); csg::crypto_sign_update(&mut st, &msg[h..]); } let mut s = [0x3Cu8; 64]; csg::crypto_sign_final_create(st, &mut s, &sk).map(|_| s.to_vec()).map_err(|e| format!("{:?}", e)) }));
+                    got.push(("IncrementalSigner::finalize (no update call for an empty message, two otherwise)", { let mut st = IncrementalSigner::new(); if len > 0 { st.update(&msg[..h].to_vec()); st.update(&msg[h..].to_vec()); } st.finalize::<Vec<u8>, _>(&sk).map_err(|e| format!("{:?}", e)) }));
+                    got.push(("IncrementalSigner::default + finalize (no update call for an empty message, two otherwise)", { let mut st = IncrementalSigner::default(); if len > 0 { st.update(&msg[..h].to_vec()); st.update(&msg[h..].to_vec()); } st.finalize::<Vec<u8>, _>(&sk).map_err(|e| format!("{:?}", e)) }));
                 }
                 for (name, g) in got {
                     rep.evaluations += 1;
